@@ -18,6 +18,11 @@ T0 = pd.Timestamp('2020-03-02 15:00:00', tz='UTC')
 
 
 def alphabet(tier):
+    if tier == 'large':
+        # large sizes with a residual of a few units (relative 5e-6): no tolerance may treat them as flat
+        evs = [('fill', q, p, c) for q in (1000000, -1000000, 999995, -999995, 5, -5) for p in ('10', '12.5')
+               for c in ('0', '1.25')]
+        return evs + [('mark', '11')]
     qtys = [2, -2, 3, -3, 5, -5]
     prices = ['10', '12.5', '9.75']
     comms = ['0', '1.25']
@@ -70,6 +75,17 @@ def check_view(view, ref, hist, where):
     """view: dict(quantity, market_value, unrealised_pnl, realised_pnl, total_pnl)."""
     fails = []
     net, mv, total, unreal = ref.expected()
+    # P&L is a small difference of large notionals: the float error scales with the notional traded, not with
+    # the result, so the tolerance is 1e-9 relative to the gross notional (>= 1)
+    gross = float(sum(abs(Fraction(q) * p) for q, p, _ in ref.fills) + abs(mv)) or 1.0
+    tol = 1e-9 * max(1.0, gross)
+
+    def close(a, b):     # noqa: F811 (shadows the module-level helper on purpose)
+        try:
+            a = float(a)
+        except Exception:
+            return False
+        return a == a and abs(a - float(b)) <= max(tol, 1e-9 * abs(float(b)))
 
     def bad(clause, impl, want):
         fails.append({'clause': clause, 'detail': {'where': where, 'impl': float(impl), 'ref': float(want),
@@ -317,6 +333,11 @@ def run(tier, res, is_known):
     for pre in itertools.product(evs, repeat=split):
         items.append((tier, pre, dpos - split))
     product(subtree_position, items, res, is_known, label='position tree', chunk=8, sample_every=301)
+    if any(not is_known(v) for v in res.violations):
+        return
+    levs = alphabet('large')
+    litems = [('large', (), 0)] + [('large', (pre,), 2 if tier == 'quick' else 3) for pre in levs]
+    product(subtree_position, litems, res, is_known, label='position tree, large magnitudes', chunk=1, sample_every=7)
     if any(not is_known(v) for v in res.violations):
         return
     pevs = pf_alphabet(tier)
